@@ -113,6 +113,9 @@ pub fn cases(tier: Tier) -> CaseSet {
     for (d, spec) in crate::c06::nested_tag_family().into_iter().step_by(tier.pick(11, 3)) {
         models.push((d, spec));
     }
+    for (d, spec) in crate::c06::scale_tag_family(5000) {
+        models.push((d, spec));
+    }
     let texts = gen::strings(&['a', 'b', 'あ', '𠀋'], 1, 4);
     CaseSet { models, texts }
 }
@@ -148,13 +151,16 @@ pub fn replay(c: &Value) -> Option<(String, String)> {
     let inp = format!("{}/c13-replay-in.txt", crate::c19::SCRATCH);
     let outp = format!("{}/c13-replay-out.txt", crate::c19::SCRATCH);
     std::fs::write(&inp, format!("M {}\nT {}\n", hex(&spec.to_bytes()), text)).ok()?;
-    let st = Command::new(&bin).args([&inp, &outp]).status().ok()?;
     let with_tags = fs.features.iter().any(|f| f == "tag-prediction");
-    let got = std::fs::read_to_string(&outp).unwrap_or_default();
-    let lines: Vec<&str> = got.lines().collect();
     let want = expected(&spec, &text.chars().collect::<Vec<_>>(), with_tags);
-    if !st.success() || lines.len() != 2 || lines[0] != "M" || lines[1] != want {
-        return Some((format!("differs set={} model={desc} text={text}", fs.name), format!("worker output {lines:?}, reference {want:?}")));
+    // a broken build may depend on per-process state (hash seeds): give it several processes
+    for _ in 0..24 {
+        let st = Command::new(&bin).args([&inp, &outp]).status().ok()?;
+        let got = std::fs::read_to_string(&outp).unwrap_or_default();
+        let lines: Vec<&str> = got.lines().collect();
+        if !st.success() || lines.len() != 2 || lines[0] != "M" || lines[1] != want {
+            return Some((format!("differs set={} model={desc} text={text}", fs.name), format!("worker output {lines:?}, reference {want:?}")));
+        }
     }
     None
 }
